@@ -373,7 +373,7 @@ func (x *fnv) runDefers(s *State, fr *frame) {
 }
 
 // runAts applies the at-clauses attached to a call of the named callee.
-func (x *fnv) runAts(s *State, callee string, call *ast.CallExpr, after bool, results []Value, args []Value) {
+func (x *fnv) runAts(s *State, callee string, call *ast.CallExpr, after bool, results []Value, args []Value, recv *Value) {
 	if x.fc == nil || len(x.fc.Ats) == 0 {
 		return
 	}
@@ -389,6 +389,9 @@ func (x *fnv) runAts(s *State, callee string, call *ast.CallExpr, after bool, re
 		env.pos = x.curPos // names are resolved at the call site, not at the head of the enclosing loop
 		for i, a := range args {
 			env.vars[fmt.Sprintf("arg%d", i)] = a
+		}
+		if recv != nil {
+			env.vars["receiver"] = *recv // the value the method is called on, whatever the expression that names it
 		}
 		if after {
 			for i, r := range results {
